@@ -128,7 +128,8 @@ Definition oapi_compute (fuel : nat) (default_eps : nat -> T S) (st : store) (q 
                     match compute fuel cc p3 a e o with
                     | Done t k fs =>
                         match discount t dc with
-                        | Ok t' => R200 t' k fs
+                        | Ok t' => if existsb (fun e => nonfinite S (snd e)) (vents t') then R500   (* json.Marshal refuses NaN / Inf *)
+                                   else R200 t' k fs
                         | _ => R500
                         end
                     | Failed _ => R500
